@@ -24,6 +24,11 @@ type c07Op struct {
 	Frame  uint64 `json:"frame,omitempty"`
 	Flags  uint64 `json:"flags,omitempty"`
 	FailAt int    `json:"failat,omitempty"` // fail the j-th call of the map seam (0 = never)
+	// Nested (mapRegion only): while the request is being mapped - during the NestedAt-th call of
+	// the map seam - another reservation of Nested bytes is served (mapping a page can need a new
+	// page table, and the frame allocator may have to reserve address space to find one)
+	Nested   uint64 `json:"nested,omitempty"`
+	NestedAt int    `json:"nestedat,omitempty"`
 }
 
 type c07Case struct {
@@ -32,6 +37,7 @@ type c07Case struct {
 
 type c07Stats struct {
 	okReservations int
+	nested         bool
 	nearRemaining  bool
 	overflowBand   bool
 }
@@ -57,6 +63,13 @@ func c07Run(c c07Case) (*vlib.Failure, c07Stats) {
 	// is set per operation to more than the operation can legitimately need, so
 	// it only ever stops a loop that maps pages the request does not cover.
 	limit, runaway := 0, false
+	var (
+		nestedSize               uint64
+		nestedAt                 int
+		nestedDone               bool
+		nestedAddr, nestedBefore uintptr
+		nestedErr                *kernel.Error
+	)
 	mapFn = func(p mm.Page, f mm.Frame, fl PageTableEntryFlag) *kernel.Error {
 		if len(calls) >= limit {
 			runaway = true
@@ -65,6 +78,11 @@ func c07Run(c c07Case) (*vlib.Failure, c07Stats) {
 		calls = append(calls, c07Call{uint64(p), uint64(f), uint64(fl)})
 		if failAt != 0 && len(calls) == failAt {
 			return c07ErrMap
+		}
+		if nestedSize != 0 && len(calls) == nestedAt {
+			nestedDone = true
+			nestedBefore = earlyReserveLastUsed
+			nestedAddr, nestedErr = EarlyReserveRegion(uintptr(nestedSize))
 		}
 		return nil
 	}
@@ -92,6 +110,10 @@ func c07Run(c c07Case) (*vlib.Failure, c07Stats) {
 
 		calls = nil
 		failAt = op.FailAt
+		nestedSize, nestedAt, nestedDone = 0, 0, false
+		if op.Kind == "mapRegion" && op.FailAt == 0 {
+			nestedSize, nestedAt = op.Nested, op.NestedAt
+		}
 		switch op.Kind {
 		case "reserve":
 			var addr uintptr
@@ -166,7 +188,33 @@ func c07Run(c c07Case) (*vlib.Failure, c07Stats) {
 				return vlib.Failf("%s: size %#x failed: %s", when, size, err.Message), rs
 			}
 			first := op.Frame // identity: page number == frame number
-			if op.Kind == "mapRegion" {
+			if nestedDone {
+				// the request's own region is the one reserved first: directly below the old cursor
+				rs.nested = true
+				addr := cursor - uintptr(rounded.Uint64())
+				if nestedBefore != addr {
+					return vlib.Failf("%s: while the %d-page request was being mapped the reservation cursor was %#x, its region is [%#x,%#x)", when, n, nestedBefore, addr, cursor), rs
+				}
+				end := addr
+				if nestedErr == nil {
+					nb := (nestedSize + 4095) &^ 4095
+					if nestedAddr&0xfff != 0 || uint64(nestedAddr)+nb > uint64(addr) || nestedAddr > addr || earlyReserveLastUsed != nestedAddr {
+						return vlib.Failf("%s: the reservation of %#x bytes served while the request was being mapped got [%#x,+%#x) and left the cursor at %#x; the request's own region is [%#x,%#x)", when, nestedSize, nestedAddr, nb, earlyReserveLastUsed, addr, cursor), rs
+					}
+					end = nestedAddr
+				} else if earlyReserveLastUsed != addr {
+					return vlib.Failf("%s: a refused reservation (served while the request was being mapped) moved the cursor to %#x", when, earlyReserveLastUsed), rs
+				}
+				regions = append(regions, c07Region{addr, cursor})
+				if end != addr {
+					regions = append(regions, c07Region{end, addr})
+				}
+				rs.okReservations++
+				first = uint64(addr >> 12)
+				if uint64(page) != first {
+					return vlib.Failf("%s: returned page %#x; the region reserved for this request is [%#x,%#x) (another reservation, of %#x bytes, was served while it was being mapped and got [%#x,%#x))", when, uint64(page), addr, cursor, nestedSize, end, addr), rs
+				}
+			} else if op.Kind == "mapRegion" {
 				addr := earlyReserveLastUsed
 				if f := c07CheckRegion(when, addr, size, cursor, &regions); f != nil {
 					return f, rs
@@ -241,6 +289,9 @@ func c07GenOp(t *rapid.T) c07Op {
 		op.Flags = c04GenFlags(t)
 		if rapid.IntRange(0, 4).Draw(t, "inject") == 0 {
 			op.FailAt = rapid.IntRange(1, 5).Draw(t, "failat")
+		} else if op.Kind == "mapRegion" && rapid.IntRange(0, 3).Draw(t, "nested") == 0 {
+			op.Nested = rapid.SampledFrom([]uint64{1, 4096, 4097, 8192, 1 << 20, 1<<64 - 4096}).Draw(t, "nestedsize")
+			op.NestedAt = rapid.IntRange(1, 3).Draw(t, "nestedat")
 		}
 	}
 	return op
@@ -263,6 +314,9 @@ func TestVerifC07(t *testing.T) {
 		}
 		if rs.overflowBand {
 			labels = append(labels, "size-in-overflow-band")
+		}
+		if rs.nested {
+			labels = append(labels, "reservation-served-while-a-region-is-being-mapped")
 		}
 		st.Case(c, len(labels) > 0, labels...)
 		vlib.Report(t, "C07", c, fail)
